@@ -8,44 +8,74 @@ R1  dispatch exhaustiveness (T-AGREE, finite): every dispatch over a method
     enum handles each member (read from the enum class) by an explicit arm, or
     falls to a default arm that raises NotImplementedError/ValueError whose
     message interpolates the method value.
-R2  guarded key reads (T-GUARD): a subscript read m[Species.K] of a species map
-    whose keys depend on configuration is dominated by `Species.K in m`, by a
-    configuration guard under which the producer inserts K, or (for a map built
-    in the same function) by an unconditional store of that key; a read under
-    a variable key is safe when the key walks the map's own keys (`for k in m`,
-    `.keys()`, `for k, v in m.items()`, also inside list()/sorted(), statement
-    or comprehension) or the keys of a mapping for whose every key an earlier
-    loop stored into m.
+R2  guarded key reads (T-GUARD): a subscript read m[Species.K] / m[k] of a
+    species map whose keys depend on configuration finds its key.  Decided from
+    where the key got in, not from how the guard is spelt: a membership fact on
+    the path (`K in m`, `K in m.keys()`, `if K not in m: return / continue /
+    raise`, conditional expression, short-circuit operand, match arm) or an
+    enclosing try that handles KeyError; for the totals, configuration facts
+    that imply the species is enabled (see R3's table); for a map built in the
+    function, every path of the control-flow graph from the entry - and from
+    anything that may take the key out again - to the read passes a store of
+    the key (`m[K] = …` in every branch, a display the map is built from,
+    setdefault / update with the key, a completed loop over a constant
+    collection containing K that stores an element per member); a key variable
+    that walks the map's own keys, a constant collection (decided member by
+    member) or a collection for whose every element an earlier loop / dict
+    comprehension stored into m (nothing added to that collection since); a
+    map handed back by a resolved helper (itself, a component of the tuple /
+    record it returns) whose every return builds it with the key; and a read
+    inside a helper from a map (and key) it is given is decided at every call
+    site of the helper with the arguments bound (so the guard may sit in the
+    helper - early return, conditional expression - or around each call).
 R3  switched-off species stay out: every store m[Species.K] = … into an index
     map handed back by the trajectory / LTO producer or by a function of the
     same module reachable from it (found through the call graph, not by name)
-    is control-dependent (in the function or at all its call sites) on a fact
-    implying K's switch is on, or stores a literal zero.  A store under a variable key needs `key in enabled_species`,
-    or a key that is already in the map (the value reads the map at that key,
-    or the key walks the map's own keys), or a key that walks the result of a
-    helper which itself inserts every species only under its switch; a key
-    that walks a constant collection of Species members (tuple of members,
-    table of (member, value) rows, dict display) is decided member by member
-    like a store under that constant key.
-    The implication table (species -> `<label>_enabled` switch, plus further
-    conditions) is computed by evaluating EmissionsConfig.enabled_species over
-    a concrete domain of Species members / strings / literal collections with
-    configuration reads kept symbolic: literal loops unrolled, local closures
-    entered with their arguments bound, early return / continue turned into
-    path conditions - so it does not depend on how the groups are spelt
-    (repeated calls, a table and a loop, plain ifs, add / update / |=).
+    is control-dependent (in the function or at all its call sites) on facts
+    that imply K is enabled, or stores a literal zero.  A store under a
+    variable key needs `key in enabled_species`, or a key that is already in
+    the map (the value reads the map at that key, or the key walks the map's
+    own keys), or a key that walks the result of a helper which itself inserts
+    every species only under its switch; a key that walks a constant
+    collection of Species members (tuple of members, table of (member, value)
+    rows, dict display) is decided member by member like a store under that
+    constant key.
+    "Imply" is decided, not matched: the table gives for each species the
+    condition under which EmissionsConfig.enabled_species contains it - found
+    by evaluating the property's body over a concrete domain of Species
+    members / strings / literal collections / rows of module-level tables and
+    record classes, configuration reads kept symbolic (literal loops and
+    comprehensions unrolled, local closures entered with their arguments
+    bound, early return / continue / match arms turned into path conditions,
+    tests on the set being built read as the conditions collected so far) -
+    and that condition is a predicate over the finite domain of the option
+    fields (bool switches, method enums; derived `<label>_enabled` properties
+    evaluated from their own bodies).  The facts at a site (tests on
+    config.emissions.*, `Species.J in enabled_species`, match arms and the
+    arms before them, guard clauses; locals with one definition expanded) are
+    predicates over the same fields, and they imply K when every assignment
+    of the fields that satisfies them has K enabled.  Facts that are not about
+    the configuration are left out (that only weakens the premise).
 R4  element type of thrust-mode arrays: iterating a ThrustModeArray yields raw
     values; attributes that exist only on ThrustMode may be used only on
     ThrustMode(x) / as_enum() elements.
-R5  source switches: a component is summed into the totals under the same
-    configuration switch that decides whether it is computed.
-R6  switches: every `<label>_enabled` the table reads exists on EmissionsConfig,
-    and a species that has a switch of its own is enabled by that switch.
-    Decided as a finite truth table: every option field with a finite domain
-    (bool, or an enum of the configuration module) is enumerated; each derived
-    switch `<label>_enabled` is evaluated from its own body (through other
-    properties) over the fields it reads, and each species' path condition(s)
-    in enabled_species likewise; with the group's own option off
+R5  source switches: a component (APU, GSE) is summed into the totals under
+    exactly the configurations under which it is computed, and those are the
+    ones its own switch selects; the life-cycle CO2 adjustment is reported and
+    added to the CO2 total under the same configurations.  The conditions of
+    the two sites (enclosing tests, guard clauses, locals with one definition
+    expanded) are compared as predicates over the finite domain of the option
+    fields, not as text.
+R6  switches: every attribute the table's conditions read exists on
+    EmissionsConfig; a species that has a switch of its own is enabled by that
+    switch; every species of the set needs some `<label>_enabled` switch to be
+    on (a species that gets in whatever the switches say cannot be switched
+    off).  Decided as a finite truth table: every option field with a finite
+    domain (bool, or an enum of the configuration module) is enumerated; each
+    derived switch `<label>_enabled` is evaluated from its own body (through
+    other properties) over the fields it reads, and each species' condition
+    likewise; the switch a species belongs to is the one its condition implies
+    (its own `<species>_enabled` first); with the group's own option off
     (`<label>_enabled = False`, or `<label>_method = NONE`) the switch must be
     false and the species must not be in the set - whatever the other options
     are.  A switch that also listens to another option turns a switched-off
@@ -145,19 +175,33 @@ def early_exit_facts(fn: ast.AST, node: ast.AST):
 
 def facts_at(fn: ast.AST, node: ast.AST):
     fs = [(t, pol) for t, pol, _ in guards_of(node)] + early_exit_facts(fn, node)
-    # match arms: `match subject: case Enum.M:` gives subject == Enum.M
+    # match arms: `match subject: case Enum.M:` gives subject == Enum.M, and none of the earlier (unguarded) arms
     for a in ancestors(node):
         if isinstance(a, ast.match_case):
             m = getattr(a, '_parent', None)
             if isinstance(m, ast.Match):
                 fs.append((ast.Compare(left=m.subject, ops=[ast.In()], comparators=[a.pattern]), True))
+                for c in m.cases:
+                    if c is a:
+                        break
+                    if c.guard is None:
+                        fs.append((ast.Compare(left=m.subject, ops=[ast.In()], comparators=[c.pattern]), False))
     atoms = []
     for t, pol in fs:
         if isinstance(t, ast.Compare) and isinstance(t.ops[0], ast.In) and isinstance(t.comparators[0], ast.pattern):
             atoms.append((t, pol))
         else:
-            atoms.extend(conjuncts(t, pol))
+            atoms.extend(_positive(x, p_) for x, p_ in conjuncts(t, pol))
     return atoms
+
+
+def _positive(t, pol):
+    """a fact with a negative comparison as its positive twin: `a not in b` true is `a in b` false (also is not / !=)"""
+    if isinstance(t, ast.Compare) and len(t.ops) == 1:
+        flip = {ast.NotIn: ast.In, ast.IsNot: ast.Is, ast.NotEq: ast.Eq}.get(type(t.ops[0]))
+        if flip is not None:
+            return ast.copy_location(ast.Compare(left=t.left, ops=[flip()], comparators=t.comparators), t), not pol
+    return t, pol
 
 
 class _Cannot(Exception):
@@ -171,6 +215,13 @@ class _Sym:
         self.text = text
 
 
+class _Record:
+    """a row of a table: an object of a record class with its field values; unpacks in field order"""
+
+    def __init__(self, cls, fields, values):
+        self.cls, self.fields, self.values = cls, fields, values
+
+
 class _SpeciesSetInterp:
     """Evaluates the body of `enabled_species` over a small concrete domain - Species members, strings, None,
     tuples / lists / dicts of those - keeping every test on configuration state symbolic.  Literal loops are
@@ -179,13 +230,56 @@ class _SpeciesSetInterp:
     (`.add`, `.update`, `|=`, set displays), the list of symbolic conditions on its path.  Whatever falls outside
     (a loop over something not literal, an unknown statement) raises _Cannot - the rule is then undecided."""
 
-    def __init__(self, fn: ast.AST):
+    def __init__(self, fn: ast.AST, module=None):
         self.fn = fn
+        self.module = module        # for module-level constant tables and record classes (NamedTuple / dataclass rows)
+        self._consts = {}
         self.out: list[tuple[str, tuple[tuple[str, bool], ...]]] = []
         rets = [r.value for r in walk_no_nested(fn) if isinstance(r, ast.Return) and r.value is not None]
-        if not rets or not all(isinstance(r, ast.Name) for r in rets) or len({r.id for r in rets}) != 1:
-            raise _Cannot('the property does not return one named set')
-        self.result = rets[0].id
+        if not rets:
+            raise _Cannot('the property returns nothing')
+        # the set that is built: the one local every return hands back (possibly wrapped: frozenset(result),
+        # result | {…}); a property that returns only displays / comprehensions has no such local
+        names = [{x.id for x in ast.walk(r) if isinstance(x, ast.Name) and isinstance(x.ctx, ast.Load)} for r in rets]
+        stored = {t.id for t, _s, _h in stores_to(fn) if isinstance(t, ast.Name)}
+        stored |= {st.target.id for st in walk_no_nested(fn) if isinstance(st, ast.AnnAssign) and isinstance(st.target, ast.Name)}
+        direct = {r.id for r in rets if isinstance(r, ast.Name)}
+        grown = {c.func.value.id for c in calls_in(fn) if isinstance(c.func, ast.Attribute) and isinstance(c.func.value, ast.Name)
+                 and c.func.attr in ('add', 'update', 'append', 'extend')}
+        grown |= {st.target.id for st in walk_no_nested(fn) if isinstance(st, ast.AugAssign) and isinstance(st.target, ast.Name)}
+        cand = direct if len(direct) == 1 else (set.intersection(*names) & stored & grown if not direct else set())
+        self.result = next(iter(cand)) if len(cand) == 1 else '<returned>'
+
+    def subst(self, e, env):
+        """text of expression e with what is known about its names filled in (symbolic values by their text,
+        Species members / strings / numbers by themselves)"""
+        import copy
+        interp = self
+
+        class T(ast.NodeTransformer):
+            def visit_Name(self, n):
+                if not isinstance(n.ctx, ast.Load) or n.id not in env:
+                    return n
+                v = env[n.id]
+                if isinstance(v, _Sym):
+                    try:
+                        return ast.parse(v.text, mode='eval').body
+                    except SyntaxError:
+                        return n
+                if isinstance(v, tuple) and len(v) == 2 and v[0] == 'sp' and isinstance(v[1], str):
+                    return ast.Attribute(value=ast.Name(id='Species', ctx=ast.Load()), attr=v[1], ctx=ast.Load())
+                if v is None or isinstance(v, (str, int, float, bool)):
+                    return ast.Constant(value=v)
+                return n
+
+            def visit_Call(self, n):
+                # getattr(self, f'{label}_enabled') with a known label reads one attribute
+                if isinstance(n.func, ast.Name) and n.func.id == 'getattr' and len(n.args) == 2 and norm(n.args[0]) == 'self':
+                    a = interp.ev(n.args[1], env)
+                    if isinstance(a, str) and a.isidentifier():
+                        return ast.Attribute(value=ast.Name(id='self', ctx=ast.Load()), attr=a, ctx=ast.Load())
+                return self.generic_visit(n)
+        return norm(ast.fix_missing_locations(T().visit(copy.deepcopy(e))))
 
     # ---- expressions
     def ev(self, e, env):
@@ -194,7 +288,31 @@ class _SpeciesSetInterp:
         if isinstance(e, ast.Attribute) and isinstance(e.value, ast.Name) and e.value.id == 'Species':
             return ('sp', e.attr)
         if isinstance(e, ast.Name):
-            return env[e.id] if e.id in env else _Sym(e.id)
+            if e.id in env:
+                return env[e.id]
+            if self.module is not None and e.id in self.module.constants:
+                if e.id not in self._consts:
+                    self._consts[e.id] = _Sym(e.id)         # a constant that refers to itself stays symbolic
+                    self._consts[e.id] = self.ev(self.module.constants[e.id], {})
+                return self._consts[e.id]
+            return _Sym(e.id)
+        if isinstance(e, ast.BinOp) and isinstance(e.op, (ast.Add, ast.Mod)):
+            l, r = self.ev(e.left, env), self.ev(e.right, env)
+            if isinstance(e.op, ast.Add) and ((isinstance(l, str) and isinstance(r, str)) or (
+                    isinstance(l, tuple) and isinstance(r, tuple) and not self._is_sp(l) and not self._is_sp(r))):
+                return l + r
+            if isinstance(e.op, ast.Mod) and isinstance(l, str) and (isinstance(r, str) or (
+                    isinstance(r, tuple) and all(isinstance(x, (str, int)) for x in r))):
+                try:
+                    return l % r
+                except (TypeError, ValueError):
+                    pass
+            return _Sym(self.subst(e, env))
+        if isinstance(e, (ast.ListComp, ast.SetComp, ast.GeneratorExp, ast.DictComp)):
+            v = self._comp_value(e, 0, dict(env))
+            if v is None:
+                return _Sym(self.subst(e, env))
+            return dict(v) if isinstance(e, ast.DictComp) else tuple(v)
         if isinstance(e, (ast.Tuple, ast.List, ast.Set)):
             out = []
             for x in e.elts:
@@ -207,53 +325,100 @@ class _SpeciesSetInterp:
                     out.append(self.ev(x, env))
             return tuple(out)
         if isinstance(e, ast.Dict):
-            if any(k is None for k in e.keys):
-                raise _Cannot('dict unpacking')
-            return {self._hashable(self.ev(k, env)): self.ev(v, env) for k, v in zip(e.keys, e.values)}
+            out = {}
+            for k, v in zip(e.keys, e.values):
+                if k is None:
+                    inner = self.ev(v, env)
+                    if not isinstance(inner, dict):
+                        raise _Cannot('dict unpacking of something that is not a literal dict')
+                    out.update(inner)
+                else:
+                    out[self._hashable(self.ev(k, env))] = self.ev(v, env)
+            return out
         if isinstance(e, ast.Subscript):
             b, i = self.ev(e.value, env), self.ev(e.slice, env) if not isinstance(e.slice, ast.Slice) else None
             if isinstance(b, (tuple, list)) and isinstance(i, int) and -len(b) <= i < len(b):
                 return b[i]
             if isinstance(b, dict) and not isinstance(i, _Sym) and i in b:
                 return b[i]
-            return _Sym(norm(e))
+            return _Sym(self.subst(e, env))
         if isinstance(e, ast.Attribute):
             b = self.ev(e.value, env)
             if isinstance(b, tuple) and len(b) == 2 and b[0] == 'sp' and e.attr == 'name':
                 return b[1]
-            return _Sym(norm(e))
+            if isinstance(b, _Record) and e.attr in b.fields:
+                return b.fields[e.attr]
+            return _Sym(self.subst(e, env))
         if isinstance(e, ast.JoinedStr):
             parts = []
             for x in e.values:
                 v = self.ev(x.value, env) if isinstance(x, ast.FormattedValue) else x.value
                 if not isinstance(v, str) or (isinstance(x, ast.FormattedValue) and (x.conversion != -1 or x.format_spec)):
-                    return _Sym(norm(e))
+                    return _Sym(self.subst(e, env))
                 parts.append(v)
             return ''.join(parts)
         if isinstance(e, ast.Call):
             f = e.func
+            rec = self._record(e, env)
+            if rec is not None:
+                return rec
+            if isinstance(f, ast.Attribute) and f.attr == 'format' and not e.keywords:
+                b = self.ev(f.value, env)
+                args = [self.ev(a, env) for a in e.args]
+                if isinstance(b, str) and all(isinstance(a, (str, int)) and not isinstance(a, bool) for a in args):
+                    try:
+                        return b.format(*args)
+                    except (IndexError, KeyError, ValueError):
+                        pass
+            if isinstance(f, ast.Name) and f.id == 'dict' and not e.keywords and len(e.args) == 1:
+                v = self.ev(e.args[0], env)
+                if isinstance(v, dict):
+                    return dict(v)
+                if isinstance(v, (tuple, list)) and all(isinstance(x, (tuple, list)) and len(x) == 2 and not self._is_sp(x) for x in v):
+                    return {self._hashable(k): val for k, val in v}
+            if isinstance(f, ast.Name) and f.id == 'zip' and not e.keywords and e.args:
+                vs = [self.ev(a, env) for a in e.args]
+                if all(isinstance(v, (tuple, list)) and not self._is_sp(v) for v in vs):
+                    return tuple(zip(*vs))
             if isinstance(f, ast.Attribute) and not e.args and not e.keywords and f.attr in ('lower', 'upper', 'items', 'keys', 'values'):
                 b = self.ev(f.value, env)
                 if isinstance(b, str) and f.attr in ('lower', 'upper'):
                     return getattr(b, f.attr)()
                 if isinstance(b, dict) and f.attr in ('items', 'keys', 'values'):
                     return tuple(getattr(b, f.attr)()) if f.attr != 'items' else tuple((k, v) for k, v in b.items())
-                return _Sym(norm(e))
+                return _Sym(self.subst(e, env))
             if isinstance(f, ast.Name) and f.id == 'getattr' and len(e.args) == 2 and norm(e.args[0]) == 'self':
                 a = self.ev(e.args[1], env)
-                return _Sym(f'self.{a}') if isinstance(a, str) else _Sym(norm(e))
+                return _Sym(f'self.{a}') if isinstance(a, str) else _Sym(self.subst(e, env))
             if isinstance(f, ast.Name) and f.id in ('tuple', 'list', 'set', 'frozenset', 'sorted') and len(e.args) <= 1 and not e.keywords:
                 if not e.args:
                     return ()
                 v = self.ev(e.args[0], env)
-                return tuple(v) if isinstance(v, (tuple, list)) else _Sym(norm(e))
-            return _Sym(norm(e))
+                return tuple(v) if isinstance(v, (tuple, list)) else _Sym(self.subst(e, env))
+            return _Sym(self.subst(e, env))
+        if isinstance(e, ast.Compare) and len(e.ops) == 1 and isinstance(e.ops[0], (ast.In, ast.NotIn)):
+            l, r = self.ev(e.left, env), e.comparators[0]
+            neg = isinstance(e.ops[0], ast.NotIn)
+            if isinstance(r, ast.Name) and r.id == self.result and self._is_sp(l):
+                # a test on the set being built: true exactly under the conditions under which the member got in so far
+                paths = [g for sp, g in self.out if sp == l[1]]
+                if not paths:
+                    return neg
+                if any(not g for g in paths):
+                    return not neg
+                txt = ' or '.join('(' + ' and '.join((('' if pol else 'not ') + f'({t})') for t, pol in g) + ')' for g in paths)
+                return _Sym(f'not ({txt})' if neg else txt)
+            rv = self.ev(r, env)
+            if not isinstance(l, _Sym) and isinstance(rv, (tuple, list, dict)) and not self._is_sp(rv) \
+                    and not any(isinstance(x, _Sym) for x in rv):
+                return (l in rv) != neg
+            return _Sym(self.subst(e, env))
         if isinstance(e, ast.Compare) and len(e.ops) == 1 and isinstance(e.ops[0], (ast.Is, ast.IsNot, ast.Eq, ast.NotEq)):
             l, r = self.ev(e.left, env), self.ev(e.comparators[0], env)
             if not isinstance(l, _Sym) and not isinstance(r, _Sym):
                 eq = l == r
                 return eq if isinstance(e.ops[0], (ast.Is, ast.Eq)) else not eq
-            return _Sym(norm(e))
+            return _Sym(self.subst(e, env))
         if isinstance(e, ast.UnaryOp) and isinstance(e.op, ast.Not):
             v = self.ev(e.operand, env)
             return _Sym(f'not ({v.text})') if isinstance(v, _Sym) else (not v)
@@ -276,8 +441,70 @@ class _SpeciesSetInterp:
             return _Sym((' or ' if is_or else ' and ').join(f'({t})' for t in parts)) if len(parts) > 1 else _Sym(parts[0])
         if isinstance(e, ast.UnaryOp) and isinstance(e.op, ast.USub):
             v = self.ev(e.operand, env)
-            return -v if isinstance(v, int) and not isinstance(v, bool) else _Sym(norm(e))
-        return _Sym(norm(e))
+            return -v if isinstance(v, int) and not isinstance(v, bool) else _Sym(self.subst(e, env))
+        if isinstance(e, ast.IfExp):
+            c = self.ev(e.test, env)
+            if not isinstance(c, _Sym):
+                return self.ev(e.body if c else e.orelse, env)
+        return _Sym(self.subst(e, env))
+
+    @staticmethod
+    def _is_sp(v):
+        return isinstance(v, tuple) and len(v) == 2 and v[0] == 'sp' and isinstance(v[1], str)
+
+    def _record(self, c: ast.Call, env):
+        """a row object: the call builds a record class of the module (NamedTuple / dataclass: annotated fields only,
+        no constructor of its own) positionally or by keyword"""
+        if self.module is None or not isinstance(c.func, ast.Name) or c.func.id in env:
+            return None
+        ci = self.module.classes.get(c.func.id)
+        if ci is None or any(n in ci.methods for n in ('__init__', '__new__', '__post_init__')):
+            return None
+        order = list(ci.annotated_fields())
+        if not order or any(isinstance(a, ast.Starred) for a in c.args) or any(k.arg is None for k in c.keywords) or len(c.args) > len(order):
+            return None
+        fields = {order[i]: self.ev(a, env) for i, a in enumerate(c.args)}
+        for k in c.keywords:
+            if k.arg not in order or k.arg in fields:
+                return None
+            fields[k.arg] = self.ev(k.value, env)
+        defaults = ci.class_assignments()
+        for n in order:
+            if n not in fields:
+                if defaults.get(n) is None:
+                    return None
+                fields[n] = self.ev(defaults[n], {})
+        return _Record(ci.name, fields, tuple(fields[n] for n in order))
+
+    def _comp_value(self, comp, i, env):
+        """the elements (list of values / of (key, value) pairs) of a comprehension over literal collections whose
+        conditions are all concretely known; None when a condition is symbolic"""
+        if i == len(comp.generators):
+            if isinstance(comp, ast.DictComp):
+                return [(self._hashable(self.ev(comp.key, env)), self.ev(comp.value, env))]
+            return [self.ev(comp.elt, env)]
+        g = comp.generators[i]
+        seq = self.ev(g.iter, env)
+        if isinstance(seq, dict):
+            seq = tuple(seq)
+        if not isinstance(seq, (tuple, list)) or self._is_sp(seq):
+            return None
+        out = []
+        for item in seq:
+            e2 = dict(env)
+            self.bind(g.target, item, e2)
+            keep = True
+            for c in g.ifs:
+                v = self.ev(c, e2)
+                if isinstance(v, _Sym):
+                    return None
+                keep = keep and bool(v)
+            if keep:
+                r = self._comp_value(comp, i + 1, e2)
+                if r is None:
+                    return None
+                out += r
+        return out
 
     @staticmethod
     def _hashable(v):
@@ -309,14 +536,95 @@ class _SpeciesSetInterp:
         for x in v:
             self.record(x, guards)
 
+    def _branches(self, test, env, guards):
+        """[(truth value, guards of that branch)] of a test: one branch when it is concretely known, else both"""
+        v = self.ev(test, env)
+        if not isinstance(v, _Sym):
+            return [(bool(v), guards)]
+        return [(pol, guards + [self._test_text(ast.UnaryOp(ast.Not(), t) if not p else t, env) for t, p in conjuncts(test, pol)])
+                for pol in (True, False)]
+
+    def add_collection(self, e, env, guards):
+        """everything the collection expression e contributes goes into the result set under `guards`: the set itself
+        (nothing new), displays, comprehensions (unrolled), set()/frozenset()/list()/tuple()/sorted() of one,
+        unions (`a | b`, a.union(b, …)), a conditional expression (both arms under its test)"""
+        if isinstance(e, ast.Name) and e.id == self.result:
+            return
+        if isinstance(e, (ast.SetComp, ast.ListComp, ast.GeneratorExp)):
+            return self.comprehension(e, 0, dict(env), guards)
+        if isinstance(e, ast.Call) and isinstance(e.func, ast.Name) and e.func.id in ('set', 'frozenset', 'list', 'tuple', 'sorted') \
+                and len(e.args) <= 1 and not e.keywords:
+            if e.args:
+                self.add_collection(e.args[0], env, guards)
+            return
+        if isinstance(e, ast.BinOp) and isinstance(e.op, ast.BitOr):
+            self.add_collection(e.left, env, guards)
+            self.add_collection(e.right, env, guards)
+            return
+        if isinstance(e, ast.Call) and isinstance(e.func, ast.Attribute) and e.func.attr == 'union' and not e.keywords:
+            for a in [e.func.value, *e.args]:
+                self.add_collection(a, env, guards)
+            return
+        if isinstance(e, ast.IfExp):
+            for truth, g in self._branches(e.test, env, guards):
+                self.add_collection(e.body if truth else e.orelse, env, g)
+            return
+        if isinstance(e, ast.Starred):
+            return self.add_collection(e.value, env, guards)
+        if isinstance(e, (ast.Set, ast.List, ast.Tuple)) and any(isinstance(x, ast.Starred) for x in e.elts):
+            for x in e.elts:
+                if isinstance(x, ast.Starred):
+                    self.add_collection(x.value, env, guards)
+                else:
+                    self.record(self.ev(x, env), guards)
+            return
+        v = self.ev(e, env)
+        if isinstance(v, dict):
+            v = tuple(v)
+        self.record_all(v, guards)
+
+    def comprehension(self, comp, i, env, guards):
+        """unrolls clause i of a comprehension over a literal collection; its conditions become path conditions"""
+        if i == len(comp.generators):
+            return self.record(self.ev(comp.elt, env), guards)
+        g = comp.generators[i]
+        seq = self.ev(g.iter, env)
+        if isinstance(seq, dict):
+            seq = tuple(seq)
+        if not isinstance(seq, (tuple, list)):
+            raise _Cannot(f'comprehension over `{norm(g.iter)[:50]}`, which is not a literal collection')
+        for item in seq:
+            e2 = dict(env)
+            self.bind(g.target, item, e2)
+            paths = [guards]
+            for c in g.ifs:
+                nxt = []
+                for gs in paths:
+                    nxt += [g_ for truth, g_ in self._branches(c, e2, gs) if truth]
+                paths = nxt
+            for gs in paths:
+                self.comprehension(comp, i + 1, e2, gs)
+
+    def bind(self, target, item, env):
+        if isinstance(item, _Record) and not isinstance(target, ast.Name):
+            item = item.values
+        if isinstance(target, ast.Name):
+            env[target.id] = item
+        elif isinstance(target, (ast.Tuple, ast.List)) and isinstance(item, (tuple, list)) and len(item) == len(target.elts) \
+                and not (len(item) == 2 and item[0] == 'sp' and isinstance(item[1], str)):
+            for x, v in zip(target.elts, item):
+                self.bind(x, v, env)
+        else:
+            raise _Cannot(f'loop target `{norm(target)}`')
+
     def call(self, c: ast.Call, env, guards):
         f = c.func
         if isinstance(f, ast.Attribute) and norm(f.value) == self.result:
-            if f.attr == 'add' and len(c.args) == 1:
+            if f.attr in ('add', 'append') and len(c.args) == 1 and not c.keywords:
                 return self.record(self.ev(c.args[0], env), guards)
-            if f.attr == 'update':
+            if f.attr in ('update', 'extend') and not c.keywords:
                 for a in c.args:
-                    self.record_all(self.ev(a, env), guards)
+                    self.add_collection(a, env, guards)
                 return
             raise _Cannot(f'`{norm(c)[:50]}` on the result set')
         if isinstance(f, ast.Name) and isinstance(env.get(f.id), ast.FunctionDef):
@@ -366,13 +674,30 @@ class _SpeciesSetInterp:
             if isinstance(st, ast.FunctionDef):
                 env[st.name] = st
             elif isinstance(st, ast.Return):
+                if st.value is not None:
+                    self.add_collection(st.value, env, guards)
                 return 'return'
             elif isinstance(st, ast.Continue):
                 return 'continue'
             elif isinstance(st, ast.Expr):
-                if isinstance(st.value, ast.Call):
-                    self.call(st.value, env, guards)
-                elif not isinstance(st.value, ast.Constant):
+                v = st.value
+                if isinstance(v, ast.Call):
+                    self.call(v, env, guards)
+                elif isinstance(v, ast.IfExp) or (isinstance(v, ast.BoolOp) and len(v.values) >= 2):
+                    # `f() if c else None`, `c and f()`, `c or f()` used as statements
+                    if isinstance(v, ast.IfExp):
+                        arms = [(v.test, True, v.body), (v.test, False, v.orelse)]
+                    else:
+                        head = v.values[0] if len(v.values) == 2 else ast.BoolOp(op=v.op, values=v.values[:-1])
+                        arms = [(head, isinstance(v.op, ast.And), v.values[-1])]
+                    for test, want, arm in arms:
+                        for truth, g in self._branches(test, env, guards):
+                            if truth == want:
+                                if isinstance(arm, ast.Call):
+                                    self.call(arm, env, g)
+                                elif not isinstance(arm, ast.Constant):
+                                    raise _Cannot(f'statement `{norm(st)[:50]}`')
+                elif not isinstance(v, ast.Constant):
                     raise _Cannot(f'statement `{norm(st)[:50]}`')
             elif isinstance(st, (ast.Assign, ast.AnnAssign)):
                 tg = st.targets if isinstance(st, ast.Assign) else [st.target]
@@ -381,17 +706,19 @@ class _SpeciesSetInterp:
                 if len(tg) != 1 or not isinstance(tg[0], ast.Name):
                     raise _Cannot(f'assignment `{norm(st)[:50]}`')
                 if tg[0].id == self.result:
+                    # (re)binding the result: what it held stays only when the new value contains the old one
                     v = st.value
-                    if isinstance(v, ast.Call) and call_name(v) in ('set', 'frozenset') and not v.args:
+                    keeps = any(isinstance(x, ast.Name) and x.id == self.result for x in ast.walk(v))
+                    if self.out and not keeps:
+                        raise _Cannot(f'the result set is rebound: `{norm(st)[:50]}`')
+                    if isinstance(v, ast.Dict) and not v.keys:
                         continue
-                    if isinstance(v, ast.Set) or (isinstance(v, ast.Call) and call_name(v) == 'set' and len(v.args) == 1):
-                        self.record_all(self.ev(v if isinstance(v, ast.Set) else v.args[0], env), guards)
-                        continue
-                    raise _Cannot(f'the result set is rebound: `{norm(st)[:50]}`')
+                    self.add_collection(v, env, guards)
+                    continue
                 env[tg[0].id] = self.ev(st.value, env)
             elif isinstance(st, ast.AugAssign):
-                if isinstance(st.target, ast.Name) and st.target.id == self.result and isinstance(st.op, ast.BitOr):
-                    self.record_all(self.ev(st.value, env), guards)
+                if isinstance(st.target, ast.Name) and st.target.id == self.result and isinstance(st.op, (ast.BitOr, ast.Add)):
+                    self.add_collection(st.value, env, guards)
                 elif isinstance(st.target, ast.Name):
                     env[st.target.id] = _Sym(st.target.id)
                 else:
@@ -403,14 +730,7 @@ class _SpeciesSetInterp:
                 if not isinstance(seq, (tuple, list)) or st.orelse:
                     raise _Cannot(f'loop over `{norm(st.iter)[:50]}`, which is not a literal collection')
                 for item in seq:
-                    if isinstance(st.target, ast.Name):
-                        env[st.target.id] = item
-                    elif isinstance(st.target, (ast.Tuple, ast.List)) and isinstance(item, (tuple, list)) \
-                            and len(item) == len(st.target.elts) and all(isinstance(x, ast.Name) for x in st.target.elts):
-                        for x, v in zip(st.target.elts, item):
-                            env[x.id] = v
-                    else:
-                        raise _Cannot(f'loop target `{norm(st.target)}`')
+                    self.bind(st.target, item, env)
                     if any(isinstance(x, ast.Break) for x in walk_no_nested(st)):
                         raise _Cannot('break in a loop')
                     if self.block(st.body, env, guards) == 'return':
@@ -441,6 +761,22 @@ class _SpeciesSetInterp:
                     guards = guards + g_false
                 elif r2:
                     guards = guards + g_true
+            elif isinstance(st, ast.Match):
+                # each arm as `if subject in (its values) and no earlier arm` - rewritten into an if / elif chain
+                chain = None
+                for c in reversed(st.cases):
+                    pats = c.pattern.patterns if isinstance(c.pattern, ast.MatchOr) else [c.pattern]
+                    if c.guard is not None:
+                        raise _Cannot('guarded case')
+                    if all(isinstance(p_, ast.MatchValue) for p_ in pats):
+                        test = ast.Compare(left=st.subject, ops=[ast.In()], comparators=[ast.Tuple(elts=[p_.value for p_ in pats], ctx=ast.Load())])
+                        chain = [ast.If(test=test, body=c.body, orelse=chain or [])]
+                    elif len(pats) == 1 and isinstance(pats[0], ast.MatchAs) and pats[0].pattern is None and pats[0].name is None:
+                        chain = list(c.body)
+                    else:
+                        raise _Cannot('pattern')
+                r = self.block((chain or []) + list(stmts[i + 1:]), env, guards)
+                return r
             else:
                 raise _Cannot(f'statement `{norm(st)[:50]}`')
         return None
@@ -497,13 +833,35 @@ class _ConfigTable:
                 self.domains[f] = list(self.enums[a])
         self.props = {n: fi for n, fi in ec.methods.items()
                       if any(d.split('.')[-1] in ('property', 'cached_property') for d in fi.decorators())}
+        self.species = None     # _EnabledTable, once enabled_species has been evaluated
+
+    @staticmethod
+    def _species_test(x):
+        """K when x is `Species.K in self.enabled_species` / `Species.K not in self.enabled_species`"""
+        if isinstance(x, ast.Compare) and len(x.ops) == 1 and isinstance(x.ops[0], (ast.In, ast.NotIn)) \
+                and isinstance(x.left, ast.Attribute) and isinstance(x.left.value, ast.Name) and x.left.value.id == 'Species' \
+                and norm(x.comparators[0]) == 'self.enabled_species':
+            return x.left.attr
+        return None
 
     def reads(self, node, seen=None):
         """option fields a piece of code reads through self (through other properties too)"""
         seen = set() if seen is None else seen
         out = set()
+        skip = set()
         for x in ast.walk(node):
             nm = None
+            if self.species is not None:
+                # the set of enabled species is read through the table computed from the property's body
+                k = self._species_test(x)
+                if k is not None:
+                    out |= self.species.fields.get(k, set())
+                    skip.add(id(x.comparators[0]))
+                    continue
+                if isinstance(x, ast.Attribute) and norm(x) == 'self.enabled_species':
+                    if id(x) not in skip:
+                        out |= set().union(*self.species.fields.values()) if self.species.fields else set()
+                    continue
             if isinstance(x, ast.Attribute) and isinstance(x.value, ast.Name) and x.value.id == 'self':
                 nm = x.attr
             elif isinstance(x, ast.Call) and call_name(x) == 'getattr' and len(x.args) >= 2 and norm(x.args[0]) == 'self' \
@@ -531,6 +889,8 @@ class _ConfigTable:
                 if m is None:
                     raise _Cannot(f'`{norm(e)}` is not a member')
                 return m
+            if isinstance(e.value, ast.Name) and e.value.id == 'Species' and e.value.id not in loc:
+                return ('sp', e.attr)
             b = self.ev(e.value, env, loc)
             if isinstance(b, _Member) and e.attr in ('value', 'name'):
                 return getattr(b, e.attr)
@@ -549,6 +909,9 @@ class _ConfigTable:
         if isinstance(e, (ast.Tuple, ast.List, ast.Set)):
             return tuple(self.ev(x, env, loc) for x in e.elts)
         if isinstance(e, ast.Compare):
+            k = self._species_test(e) if self.species is not None else None
+            if k is not None:
+                return self.species.enabled(k, env) == isinstance(e.ops[0], ast.In)
             left = self.ev(e.left, env, loc)
             for op, c in zip(e.ops, e.comparators):
                 right = self.ev(c, env, loc)
@@ -581,6 +944,8 @@ class _ConfigTable:
     def attr(self, name, env):
         if name in env:
             return env[name]
+        if name == 'enabled_species' and self.species is not None:
+            return self.species.enabled_set(env)
         if name in self.props:
             key = ('prop', name)
             if key in env:
@@ -655,12 +1020,152 @@ class _ConfigTable:
         return None
 
 
-def rule_own_switch(ctx, paths_by_species):
+class _EnabledTable:
+    """species -> the condition under which EmissionsConfig.enabled_species contains it, as a predicate over the
+    finite option fields (bool switches and method enums): the path conditions the interpreter found, evaluated by
+    _ConfigTable - through derived `<label>_enabled` properties, whatever their spelling."""
+
+    def __init__(self, tab: _ConfigTable, paths_by_species):
+        self.tab = tab
+        self.text = {sp: [' and '.join((('' if pol else 'not ') + f'({t})') for t, pol in g) or 'always' for g in paths]
+                     for sp, paths in paths_by_species.items()}
+        self.cond = {sp: [[(ast.parse(t, mode='eval').body, pol) for t, pol in g] for g in paths]
+                     for sp, paths in paths_by_species.items()}       # SyntaxError: the caller reports it
+        self.fields = {sp: set().union(*[tab.reads(c) for g in paths for c, _pol in g]) if any(paths) else set()
+                       for sp, paths in self.cond.items()}
+        self._memo = {}
+        tab.species = self
+
+    def enabled(self, sp, env) -> bool:
+        if sp not in self.cond:
+            return False
+        key = (sp, tuple(sorted((k, repr(env[k])) for k in self.fields[sp] if k in env)))
+        if key not in self._memo:
+            self._memo[key] = any(all(bool(self.tab.ev(c, dict(env), {})) == pol for c, pol in g) for g in self.cond[sp])
+        return self._memo[key]
+
+    def enabled_set(self, env):
+        return tuple(('sp', sp) for sp in self.cond if self.enabled(sp, env))
+
+    # ---- facts of the emissions package, read as predicates over the same option fields
+    def site_predicate(self, fi, t):
+        """the fact expression t (a test of some function of the emissions package) as an expression over `self` =
+        config.emissions, locals with a single definition expanded; a match arm reads `subject in (its values)`.
+        None when it is not an expression (a wildcard arm)."""
+        import copy
+        if isinstance(t, ast.Compare) and isinstance(t.comparators[0], ast.pattern):
+            vals = _pattern_values(t.comparators[0])
+            if vals is None:
+                return None
+            t = ast.Compare(left=t.left, ops=[ast.In()], comparators=[ast.Tuple(elts=list(vals), ctx=ast.Load())])
+        fn = fi.node if fi is not None else None
+        params = set(fi.params) if fi is not None else set()
+
+        class T(ast.NodeTransformer):
+            def __init__(self, depth):
+                self.depth = depth
+
+            def visit_Attribute(self, n):
+                if isinstance(n.value, ast.Name) and n.value.id == 'config' and n.attr == 'emissions':
+                    return ast.Name(id='self', ctx=ast.Load())
+                return self.generic_visit(n)
+
+            def visit_Name(self, n):
+                if fn is not None and isinstance(n.ctx, ast.Load) and n.id not in params and self.depth < 5:
+                    v = single_def_value(fn, n.id)
+                    if v is not None:
+                        return T(self.depth + 1).visit(fresh(v))
+                return n
+
+        def fresh(e):
+            # a copy without the loader's parent links (a deep copy of a fact built from pieces of the tree would
+            # follow them into the whole module)
+            return ast.parse(ast.unparse(e), mode='eval').body
+        return T(0).visit(fresh(t))
+
+    def premises(self, fi, atoms):
+        """the facts among atoms that are predicates over the option fields: [(expression over self, polarity, fields it
+        reads, text)]"""
+        prem = []
+        for t, pol in atoms:
+            try:
+                e = self.site_predicate(fi, t)
+            except RecursionError:
+                e = None
+            if e is None:
+                continue
+            try:
+                fields = self.tab.reads(e)
+                if not fields:
+                    continue
+                for env in self.tab.assignments(fields):        # evaluable for every value of what it reads?
+                    self.tab.ev(e, dict(env), {})
+            except _Cannot:
+                continue
+            txt = norm(t) if not isinstance(t.comparators[0] if isinstance(t, ast.Compare) else None, ast.pattern) else \
+                f'case {norm(e.comparators[0])} of {norm(t.left)}'
+            prem.append((e, pol, fields, ('' if pol else 'not ') + txt))
+        return prem
+
+    def differ(self, A, B):
+        """an assignment of the option fields under which the conjunctions A and B of premises differ (None: they are
+        the same predicate)"""
+        fields = set().union(*[p[2] for p in A + B]) if A + B else set()
+        for env in self.tab.assignments(fields):
+            a = all(bool(self.tab.ev(e, dict(env), {})) == pol for e, pol, _f, _t in A)
+            b = all(bool(self.tab.ev(e, dict(env), {})) == pol for e, pol, _f, _t in B)
+            if a != b:
+                return env
+        return None
+
+    def implied_by(self, fi, atoms, K):
+        """the facts (test, polarity) among `atoms` that together imply `Species.K in enabled_species` for every value
+        of the option fields - None when they do not.  Facts that are not about the configuration are left out (that
+        only weakens the premise)."""
+        prem = self.premises(fi, atoms)
+        if not prem:
+            return None
+
+        def implies(ps):
+            fields = set(self.fields.get(K, set())).union(*[p[2] for p in ps])
+            sat = False
+            for env in self.tab.assignments(fields):
+                if all(bool(self.tab.ev(e, dict(env), {})) == pol for e, pol, _f, _t in ps):
+                    sat = True
+                    if not self.enabled(K, env):
+                        return False
+            return True if sat else None        # None: the facts contradict each other (dead code)
+        try:
+            for p_ in prem:                                     # one fact that does it alone reads best
+                if implies([p_]):
+                    return p_[3]
+            r = implies(prem)
+        except _Cannot:
+            return None
+        if r is None:
+            return 'unreachable: ' + ' and '.join(p_[3] for p_ in prem)
+        return ' and '.join(p_[3] for p_ in prem) if r else None
+
+
+def _pattern_values(p):
+    """the value expressions of a `case A | B:` pattern; None for anything else (wildcard, capture, class pattern)"""
+    if isinstance(p, ast.MatchValue):
+        return [p.value]
+    if isinstance(p, ast.MatchOr):
+        out = []
+        for q in p.patterns:
+            r = _pattern_values(q)
+            if r is None:
+                return None
+            out += r
+        return out
+    return None
+
+
+def rule_own_switch(ctx, tab, table, label_of):
     """R6 (truth table): a species group that is switched off is not enabled, whatever the other options say."""
     prog = ctx.prog
     cm = prog.module(CFGE)
-    ec = cm.cls('EmissionsConfig')
-    tab = _ConfigTable(prog, cm, ec)
     ctx.floor('C11-R6/domains', len(tab.domains), 10, 'option fields with a finite domain')
     n = 0
     # (a) every derived switch `<label>_enabled` on its own
@@ -689,31 +1194,19 @@ def rule_own_switch(ctx, paths_by_species):
                 f'({sw[2]}) but counts as enabled because of {others}, so enabled_species contains it and the trajectory and '
                 'LTO parts report it non-zero'), line=fi.node.lineno)
     ctx.floor('C11-R6/switches', n, 5, 'derived `<label>_enabled` switches evaluated')
-    # (b) every species of enabled_species, through the conditions on its path(s)
+    # (b) every species of enabled_species, through the condition(s) under which it is put into the set
     fi = cm.func('EmissionsConfig.enabled_species')
-    for sp, paths in sorted(paths_by_species.items()):
-        labels = {t[len('self.'):-len('_enabled')] for g in paths for t, pol in g
-                  if pol and t.startswith('self.') and t.endswith('_enabled') and t[len('self.'):].isidentifier()}
-        label = sp.lower() if tab.own_switch(sp.lower()) else (next(iter(labels)) if len(labels) == 1 else None)
+    for sp in sorted(table.cond):
+        label = sp.lower() if tab.own_switch(sp.lower()) else label_of.get(sp)
         sw = tab.own_switch(label) if label else None
         if sw is None:
             continue
-        try:
-            conds = [[(ast.parse(t, mode='eval').body, pol) for t, pol in g] for g in paths]
-        except SyntaxError:
-            continue
-        fields = {sw[0]}
-        for g in conds:
-            for c, _pol in g:
-                fields |= tab.reads(c)
+        fields = {sw[0]} | table.fields[sp]
         bad = None
-        try:
-            for env in tab.assignments(fields):
-                if sw[1](env[sw[0]]) and any(all(bool(tab.ev(c, dict(env), {})) == pol for c, pol in g) for g in conds):
-                    bad = env
-                    break
-        except _Cannot:
-            continue        # a condition outside the option fields: the symbolic table rule decides (or is undecided)
+        for env in tab.assignments(fields):
+            if sw[1](env[sw[0]]) and table.enabled(sp, env):
+                bad = env
+                break
         ctx.ob('C11-R6', fi, f'Species.{sp} is not enabled when {sw[2]}', bad is None,
                f'for every assignment of {sorted(fields)}' if bad is None else
                f'Species.{sp} is put into enabled_species for {", ".join(f"{k}={v!r}" for k, v in sorted(bad.items()))}: '
@@ -721,50 +1214,90 @@ def rule_own_switch(ctx, paths_by_species):
 
 
 def implication_table(ctx):
-    """group label -> species, from EmissionsConfig.enabled_species: which `<label>_enabled` switch (and which
-    further condition) each species needs to get into the set - computed from what the property *does*, not from
-    how its calls are spelt."""
+    """species -> condition under which EmissionsConfig.enabled_species contains it, and the grouping by the switch
+    each species needs: computed from what the property *does* (interpreted over literal collections, configuration
+    reads symbolic) and *decided* over the finite domain of the option fields - not from how conditions are spelt."""
     m = ctx.prog.module(CFGE)
     fi = m.func('EmissionsConfig.enabled_species')
-    groups = {}
+    ec = m.cls('EmissionsConfig')
     try:
-        it = _SpeciesSetInterp(fi.node)
+        it = _SpeciesSetInterp(fi.node, m)
         it.block(fi.node.body, {}, [])
     except _Cannot as e:
         ctx.undecided('C11-R3/table', fi, 'enabled_species', f'cannot evaluate which species each switch enables: {e}')
     by_sp: dict[str, list] = {}
     for sp, guards in it.out:
         by_sp.setdefault(sp, []).append(guards)
-    rule_own_switch(ctx, by_sp)
-    for sp, paths in by_sp.items():
-        if len(paths) != 1:
-            ctx.undecided('C11-R3/table', fi, f'Species.{sp}', f'added on {len(paths)} different paths')
-        sw = [(t, pol) for t, pol in paths[0] if t.startswith('self.') and t.endswith('_enabled')
-              and t[len('self.'):].isidentifier()]
-        extra = [('' if pol else 'not ') + t for t, pol in paths[0] if (t, pol) not in sw]
-        if len(sw) != 1 or not sw[0][1]:
+    tab = _ConfigTable(ctx.prog, m, ec)
+    try:
+        table = _EnabledTable(tab, by_sp)
+    except SyntaxError as e:
+        ctx.undecided('C11-R3/table', fi, 'enabled_species', f'a path condition is not an expression: {e}')
+    # every condition must be decidable over the option fields
+    for sp in sorted(table.cond):
+        try:
+            for env in tab.assignments(table.fields[sp]):
+                table.enabled(sp, env)
+        except _Cannot as e:
             ctx.undecided('C11-R3/table', fi, f'Species.{sp}',
-                          f'enabled under {[("" if p else "not ") + t for t, p in paths[0]]}: not exactly one `<label>_enabled` switch')
-        label = sw[0][0][len('self.'):-len('_enabled')]
+                          f'enabled under {table.text[sp]}: cannot be evaluated over the option fields ({e})')
+    # the switches: every `<label>_enabled` of the configuration (plain bool field or derived property)
+    switches = sorted(n for n in set(tab.domains) | set(tab.props) if n.endswith('_enabled'))
+    groups, label_of, pending, unswitchable = {}, {}, [], []
+    for sp in sorted(table.cond):
+        sat = any(table.enabled(sp, env) for env in tab.assignments(table.fields[sp]))
+        if not sat:
+            pending.append((f'Species.{sp}', f'enabled under {table.text[sp]}, which no configuration satisfies'))
+            continue
+        nec, equal = [], []
+        for sw in switches:
+            try:
+                fields = table.fields[sp] | tab.reads(ast.parse(f'self.{sw}', mode='eval').body)
+                rows = [(table.enabled(sp, env), bool(tab.attr(sw, dict(env)))) for env in tab.assignments(fields)]
+            except _Cannot:
+                continue
+            if all(s_ or not e_ for e_, s_ in rows):
+                nec.append(sw)
+                if all(e_ == s_ for e_, s_ in rows):
+                    equal.append(sw)
+        if not nec:
+            unswitchable.append(sp)
+            continue
+        mine = f'{sp.lower()}_enabled'
+        pick = mine if mine in nec else (equal[0] if equal else nec[0])
+        label = pick[:-len('_enabled')]
+        label_of[sp] = label
         groups.setdefault(label, {'species': set(), 'conditional': {}})
-        if extra:
-            groups[label]['conditional'][sp] = extra
-        else:
+        if pick in equal:
             groups[label]['species'].add(sp)
-    # R6: a species that has a switch of its own must be enabled by that switch
-    ec = m.cls('EmissionsConfig')
+        else:
+            groups[label]['conditional'][sp] = table.text[sp]
+    rule_own_switch(ctx, tab, table, label_of)
+    # a switch the property reads must exist (else every use of enabled_species fails)
     own = set(ec.all_fields()) | set(ec.methods)
-    for label in sorted(groups):
-        if f'{label}_enabled' not in own:
-            ctx.ob('C11-R6', fi, f'switch `{label}_enabled` exists', False,
-                   f'enabled_species reads `self.{label}_enabled`, which EmissionsConfig does not have: every use of '
-                   f'enabled_species fails with AttributeError', line=fi.node.lineno)
+    for sp in sorted(table.cond):
+        for g in table.cond[sp]:
+            for c, _pol in g:
+                for x in ast.walk(c):
+                    if isinstance(x, ast.Attribute) and isinstance(x.value, ast.Name) and x.value.id == 'self' and x.attr not in own:
+                        ctx.ob('C11-R6', fi, f'switch `{x.attr}` exists', False,
+                               f'enabled_species reads `self.{x.attr}`, which EmissionsConfig does not have: every use of '
+                               f'enabled_species fails with AttributeError', line=fi.node.lineno)
+    for sp in unswitchable:
+        ctx.ob('C11-R6', fi, f'Species.{sp} can be switched off', False,
+               f'Species.{sp} is put into enabled_species under {table.text[sp]}: no `<label>_enabled` switch of the configuration '
+               'has to be on for that, so the option that is documented to switch it off does not keep it out of the '
+               'trajectory and LTO parts', line=fi.node.lineno)
+    for what, why in pending:
+        ctx.undecided('C11-R3/table', fi, what, why)
+    # R6: a species that has a switch of its own must be enabled by that switch
     for label, g in sorted(groups.items()):
         for sp in sorted(g['species'] | set(g['conditional'])):
             mine = f'{sp.lower()}_enabled'
             if mine in own and sp.lower() != label:
                 ctx.ob('C11-R6', fi, f'Species.{sp} enabled by `{label}_enabled`', False,
-                       f'EmissionsConfig has `{mine}` (from {sp.lower()}_method), but enabled_species puts Species.{sp} in the '
+                       f'EmissionsConfig has `{mine}`' + (f' (from {sp.lower()}_method)' if f'{sp.lower()}_method' in own else '') +
+                       f', but enabled_species puts Species.{sp} in the '
                        f'`{label}` group: switching {sp} off has no effect and it keeps being computed (and switching '
                        f'{label.upper()} off removes it)', line=fi.node.lineno)
             else:
@@ -772,46 +1305,20 @@ def implication_table(ctx):
                        'own switch' if sp.lower() == label else 'member of a multi-species group without a switch of its own',
                        line=fi.node.lineno, nontrivial=False)
     ctx.floor('C11-R3/table', len(groups), 7, 'species groups in enabled_species')
-    return groups
+    table.groups = groups
+    return table
 
 
-def species_enabled_by(atoms, K: str, groups, keyvar: str | None = None) -> str | None:
-    """Does some fact imply species K is switched on?  Returns the fact text."""
-    label = next((l for l, g in groups.items() if K in g['species'] or K in g['conditional']), None)
-    for t, pol in atoms:
-        txt = norm(t) if not (isinstance(t, ast.Compare) and isinstance(t.comparators[0], ast.pattern)) else None
-        if txt is not None and pol:
-            # Species.J in config.emissions.enabled_species
-            if isinstance(t, ast.Compare) and isinstance(t.ops[0], ast.In) and 'enabled_species' in norm(t.comparators[0]):
-                j = t.left.attr if isinstance(t.left, ast.Attribute) else None
-                if j == K:
-                    return txt
-                if j and label and j in groups[label]['species'] and K in groups[label]['species']:
-                    return txt
-                if keyvar and norm(t.left) == keyvar:
-                    return txt
-            if label and txt == f'config.emissions.{label}_enabled' and K in groups[label]['species']:
-                return txt
-        if txt is not None and not pol and label and K in groups[label]['species']:
-            # not (not enabled or method is NONE)  -> handled through conjuncts with pol False
-            if txt in (f'not config.emissions.{label}_enabled',):
-                return 'not (' + txt + ')'
-            if txt == f'config.emissions.{label}_method is {_enum_of(label)}.NONE' or \
-                    txt == f'config.emissions.{label}_method == {_enum_of(label)}.NONE':
-                return 'not (' + txt + ')'
-        if txt is None and pol and label and K in groups[label]['species']:
-            # inside a match arm on config.emissions.<label>_method with a non-NONE member
-            subj = norm(t.left)
-            if subj == f'config.emissions.{label}_method':
-                pats = _pattern_members(t.comparators[0])
-                if pats and 'NONE' not in pats:
-                    return f'case {"|".join(sorted(pats))} of {subj}'
-    return None
-
-
-def _enum_of(label):
-    return {'nox': 'EINOxMethod', 'hc': 'EINOxMethod', 'co': 'EINOxMethod', 'pmvol': 'PMvolMethod',
-            'pmnvol': 'PMnvolMethod'}.get(label, '?')
+def species_enabled_by(atoms, K: str, table, keyvar: str | None = None, fi=None) -> str | None:
+    """Do the facts at a site imply that species K is switched on?  Decided over the finite domain of the option
+    fields: for every assignment under which all the (configuration) facts hold, enabled_species contains K.
+    Returns the text of the deciding fact(s)."""
+    if keyvar:
+        for t, pol in atoms:
+            if pol and isinstance(t, ast.Compare) and not isinstance(t.comparators[0], ast.pattern) and isinstance(t.ops[0], ast.In) \
+                    and norm(t.left) == keyvar and 'enabled_species' in norm(t.comparators[0]):
+                return norm(t)
+    return table.implied_by(fi, atoms, K)
 
 
 def _pattern_members(p) -> set[str] | None:
@@ -943,9 +1450,372 @@ def _governing(node, keyvar: str):
 
 
 # ---------------------------------------------------------------- R2 -----
-def rule_reads(ctx, groups):
+_KEYERROR_HANDLERS = {'KeyError', 'LookupError', 'Exception', 'BaseException'}
+_MAP_NAMES = ('indices', 'emissions', 'gse', 'lto_indices', 'lto_emissions', 'trajectory', 'lto', 'apu', 'nominal', 'result')
+
+
+def _species_const(e):
+    return isinstance(e, ast.Attribute) and isinstance(e.value, ast.Name) and e.value.id == 'Species'
+
+
+class _KeyReads:
+    """Is the key of a read `m[key]` certainly in the species map m when the read happens?  Decided from where the key
+    got in, not from how the guard is spelt:
+      * a membership fact on the path (`key in m`, `key in m.keys()`, `if key not in m: return/continue/raise`, a
+        conditional expression, a short-circuit operand, a match arm), or an enclosing try that handles KeyError;
+      * for the totals (an attribute of an inventory): facts that imply the species is enabled, over the option fields;
+      * for a map built in the function: every path from the function entry - and from anything that may take the key
+        out again (del / pop / clear / rebinding the map, rebinding a name the key mentions) - to the read passes a
+        store of that key (`m[key] = …`, a display the map is built from, `.setdefault` / `.update` with the key; a
+        completed loop over a literal collection / a mapping that stores `m[v] = …` for every element v counts for
+        each of its elements), decided on the control-flow graph;
+      * a key variable that walks the map's own keys; one that walks a literal collection of constant keys is decided
+        key by key; one that walks another collection needs an earlier loop (or dict comprehension) that stored an
+        element for everything that collection yields, with nothing added to the collection in between;
+      * a map handed back by a resolved helper whose every return builds it with the key;
+      * a map (and key) received as parameters: the read is decided at every call site, with the arguments bound."""
+
+    def __init__(self, prog, table):
+        self.prog, self.table = prog, table
+        self.flow = _Writability(prog)      # for its CFG / statement-node tables
+        self.why_not = None
+
+    # ---- facts
+    def handled(self, fi, at):
+        child = at
+        for a in ancestors(at):
+            if isinstance(a, ast.Try) and any(child is s for s in a.body):
+                for h in a.handlers:
+                    ts = [h.type] if h.type is not None and not isinstance(h.type, ast.Tuple) else (h.type.elts if h.type is not None else [])
+                    if h.type is None or any(norm(t).split('.')[-1] in _KEYERROR_HANDLERS for t in ts):
+                        return f'a missing key is handled by `except {norm(h.type) if h.type is not None else ""}` at line {h.lineno}'
+            if a is fi.node:
+                break
+            child = a
+        return None
+
+    @staticmethod
+    def member_fact(atoms, ktxt, btxt):
+        for t, pol in atoms:
+            if not pol or not isinstance(t, ast.Compare) or len(t.ops) != 1 or isinstance(t.comparators[0], ast.pattern):
+                continue
+            if isinstance(t.ops[0], ast.In) and norm(t.left) == ktxt:
+                r = t.comparators[0]
+                if isinstance(r, ast.Call) and isinstance(r.func, ast.Attribute) and r.func.attr == 'keys' and not r.args:
+                    r = r.func.value
+                while isinstance(r, ast.Call) and call_name(r) in ('set', 'list', 'tuple', 'frozenset') and len(r.args) == 1:
+                    r = r.args[0]
+                if norm(r) == btxt:
+                    return f'guarded by `{norm(t)}`'
+        return None
+
+    # ---- a map built in the function: stores on every path (CFG)
+    def _key_stores(self, fi, m, key, depth=0):
+        """(nodes after which m certainly holds `key`, nodes after which it may no longer)"""
+        fn, g = fi.node, self.flow.cfg(fi)
+        ktxt = norm(key)
+        stores, kills = set(), set()
+        knames = {x.id for x in ast.walk(key) if isinstance(x, ast.Name) and not _species_const(x)} - {'Species'}
+        if _species_const(key):
+            knames = set()
+
+        def display_has(e):
+            return any(isinstance(d, ast.Dict) and any(k is not None and norm(k) == ktxt for k in d.keys) for d in ast.walk(e))
+
+        for t, st, how in stores_to(fn):
+            if isinstance(t, ast.Subscript) and isinstance(t.value, ast.Name) and t.value.id == m:
+                if norm(t.slice) == ktxt and how in ('assign', 'ann'):
+                    stores |= set(self.flow.nodes(fi, st))
+                elif how == 'del':
+                    kills |= set(self.flow.nodes(fi, st))
+            elif isinstance(t, ast.Name) and t.id == m:
+                v = getattr(st, 'value', None)
+                if how in ('assign', 'ann') and v is not None and display_has(v):
+                    stores |= set(self.flow.nodes(fi, st))
+                elif how == 'aug' and isinstance(getattr(st, 'op', None), ast.BitOr) and display_has(st.value):
+                    stores |= set(self.flow.nodes(fi, st))
+                elif how != 'aug':
+                    kills |= set(self.flow.nodes(fi, st))
+            elif isinstance(t, ast.Name) and t.id in knames:
+                kills |= set(self.flow.nodes(fi, st))
+        for c in calls_in(fn):
+            if isinstance(c.func, ast.Attribute) and isinstance(c.func.value, ast.Name) and c.func.value.id == m:
+                st = stmt_of(c)
+                if c.func.attr == 'setdefault' and c.args and norm(c.args[0]) == ktxt:
+                    stores |= set(self.flow.nodes(fi, st))
+                elif c.func.attr == 'update' and any(display_has(a) for a in c.args):
+                    stores |= set(self.flow.nodes(fi, st))
+                elif c.func.attr in ('pop', 'popitem', 'clear'):
+                    kills |= set(self.flow.nodes(fi, st))
+        # a call that hands the map to a resolved function which stores the key into that parameter on every path to
+        # its return
+        if _species_const(key) and depth < 3:
+            for c in calls_in(fn):
+                if not any(isinstance(a_, ast.Name) and a_.id == m for a_ in [*c.args, *[k.value for k in c.keywords]]):
+                    continue
+                callee = resolve_call(self.prog, fi, c)
+                if callee is None or callee.node is fn or callee.node.decorator_list:
+                    continue
+                for pname in callee.params:
+                    a_ = _bound_arg(callee, c, pname)
+                    if isinstance(a_, ast.Name) and a_.id == m and self.stores_before_return(callee, pname, key, depth + 1):
+                        stores |= set(self.flow.nodes(fi, stmt_of(c)))
+        # a completed loop that stores an element for every member of a constant collection containing the key (a
+        # display of members, rows of (member, value), a dict display - in place, a local or a module constant)
+        if g is not None and _species_const(key):
+            for t, st, how in stores_to(fn):
+                if not (isinstance(t, ast.Subscript) and isinstance(t.value, ast.Name) and t.value.id == m
+                        and isinstance(t.slice, ast.Name) and how in ('assign', 'ann')):
+                    continue
+                lit = _literal_species_keys(self.prog, fi, st, t.slice.id, with_owner=True)
+                if lit is None or key.attr not in lit[1] or not isinstance(lit[0], ast.For) or lit[0].orelse:
+                    continue
+                if self._stores_every(fi, lit[0], m, t.slice.id):
+                    stores |= {n for n in g.nodes_of(lit[0]) if g.nodes[n].kind == 'join'}
+        return stores, kills - stores
+
+    def _literal_elts(self, fi, it):
+        while isinstance(it, ast.Call) and isinstance(it.func, ast.Name) and it.func.id in ('list', 'tuple', 'sorted', 'set', 'frozenset') \
+                and len(it.args) == 1 and not it.keywords:
+            it = it.args[0]
+        if isinstance(it, ast.Name):
+            v = single_def_value(fi.node, it.id)
+            if v is None and it.id not in fi.params and not any(isinstance(t, ast.Name) and t.id == it.id for t, _s, _h in stores_to(fi.node)):
+                r = self.prog.resolve_name(fi.module, it.id)
+                v = r[1].constants[r[2]] if isinstance(r, tuple) and r[0] == 'const' else None
+            it = v
+        if isinstance(it, (ast.List, ast.Tuple, ast.Set)) and not any(isinstance(e, ast.Starred) for e in it.elts):
+            return list(it.elts)
+        return None
+
+    def _stores_every(self, fi, lp, m, lv):
+        """every iteration of loop lp stores m[lv] = …: no path through the body gets back to the loop head (or out
+        of the loop by `break`) without passing such a store - whichever branch it takes"""
+        g = self.flow.cfg(fi)
+        if g is None:
+            return False
+        head = [n for n in g.nodes_of(lp) if g.nodes[n].kind == 'iter']
+        join = [n for n in g.nodes_of(lp) if g.nodes[n].kind == 'join']
+        S = set()
+        for t, st, how in stores_to(lp):
+            if isinstance(t, ast.Subscript) and isinstance(t.value, ast.Name) and t.value.id == m and norm(t.slice) == lv \
+                    and how in ('assign', 'ann') and st is not lp:
+                S |= set(self.flow.nodes(fi, st))
+        if not head or not S:
+            return False
+        if any(isinstance(t, ast.Name) and t.id == lv and st is not lp for t, st, how in stores_to(lp)):
+            return False        # the loop variable is rebound inside the loop
+        h = head[0]
+
+        def edge_ok(a, b, lab):
+            if a == h:
+                return lab == 't'
+            return a not in S and lab != 'e'
+        return not any(g.reaches(h, tgt, edge_ok) for tgt in [h, *join])
+
+    def stores_before_return(self, fi, pname, key, depth=0):
+        """function fi stores `key` into the map it receives as parameter pname on every path from its entry to a
+        normal return"""
+        g = self.flow.cfg(fi)
+        if g is None:
+            return False
+        stores, kills = self._key_stores(fi, pname, key, depth)
+        if not stores:
+            return False
+        blocked = self.flow._avoiding(g, stores)
+        return not any(g.reaches(a, g.exit, blocked) for a in kills | {g.entry})
+
+    def stored_on_every_path(self, fi, m, key, at, depth=0):
+        g = self.flow.cfg(fi)
+        use = self.flow.nodes(fi, stmt_of(at) if not isinstance(at, ast.stmt) else at)
+        if g is None or not use:
+            return None
+        stores, kills = self._key_stores(fi, m, key, depth)
+        if not stores:
+            return None
+        blocked = self.flow._avoiding(g, stores)
+        for a in kills | {g.entry}:
+            for u in use:
+                if (a == u and a != g.entry and a not in stores) or g.reaches(a, u, blocked):
+                    return None
+        lines = sorted({g.nodes[n].line for n in stores if g.nodes[n].line})
+        return f'every path to the read stores the key first (line{"s" if len(lines) > 1 else ""} {", ".join(map(str, lines[:4]))})'
+
+    # ---- every element of a collection was stored by an earlier loop
+    def stored_for_all_of(self, fi, m, it, at):
+        """an earlier statement of an enclosing block stored m[v] for every v the iterable `it` yields (a loop with
+        the same iterable, a dict comprehension over it handed to the map), and the iterated mapping got no new key since"""
+        want = iterated_mapping(it)
+        want_txt = (norm(want[0]), 'keys') if want is not None and want[1] in ('keys', 'items') else (norm(it), None)
+        child = at
+        for a in ancestors(at):
+            for f in ('body', 'orelse', 'finalbody'):
+                bl = getattr(a, f, None)
+                if not (isinstance(bl, list) and any(child is s for s in bl)):
+                    continue
+                for s0 in bl:
+                    if s0 is child:
+                        break
+                    src = None
+                    if isinstance(s0, ast.For) and not s0.orelse:
+                        mi0 = map_iteration(s0.target, s0.iter)
+                        lv = mi0[1] if mi0 else (s0.target.id if isinstance(s0.target, ast.Name) else None)
+                        if lv is not None and self._stores_every(fi, s0, m, lv):
+                            src = (mi0[0], 'keys') if mi0 is not None else (norm(s0.iter), None)
+                    else:
+                        for comp in [x for x in ast.walk(s0) if isinstance(x, ast.DictComp)] if isinstance(s0, (ast.Assign, ast.AnnAssign, ast.Expr)) else []:
+                            holder = getattr(comp, '_parent', None)
+                            while isinstance(holder, ast.Call) and holder is not getattr(s0, 'value', None) and not (
+                                    isinstance(holder.func, ast.Attribute) and holder.func.attr == 'update'):
+                                holder = getattr(holder, '_parent', None)
+                            into = None
+                            if isinstance(holder, ast.Call) and isinstance(holder.func, ast.Attribute) and holder.func.attr == 'update':
+                                into = norm(holder.func.value)
+                            elif isinstance(s0, (ast.Assign, ast.AnnAssign)):
+                                tg = s0.targets if isinstance(s0, ast.Assign) else [s0.target]
+                                into = tg[0].id if len(tg) == 1 and isinstance(tg[0], ast.Name) else None
+                            if into == m and len(comp.generators) == 1 and not comp.generators[0].ifs:
+                                g0 = comp.generators[0]
+                                mi0 = map_iteration(g0.target, g0.iter)
+                                kv = mi0[1] if mi0 else (g0.target.id if isinstance(g0.target, ast.Name) else None)
+                                if kv is not None and norm(comp.key) == kv:
+                                    src = (mi0[0], 'keys') if mi0 is not None else (norm(g0.iter), None)
+                    if src is not None and src == want_txt:
+                        grown = self._grows(fi, src[0], s0, at) if src[1] == 'keys' else None
+                        if grown is None:
+                            return f'stored for every {"key of " if src[1] else "element of "}{src[0][:40]} by line {s0.lineno}'
+            if a is fi.node:
+                break
+            child = a
+        return None
+
+    def _grows(self, fi, mtxt, after, before):
+        """a statement between `after` and `before` that may add a key to the mapping mtxt"""
+        lo, hi = getattr(after, 'end_lineno', after.lineno), getattr(before, 'lineno', 0)
+        for t, st, how in stores_to(fi.node):
+            if isinstance(t, ast.Subscript) and norm(t.value) == mtxt and how in ('assign', 'ann') and lo < st.lineno < hi:
+                gov = _governing(st, norm(t.slice)) if isinstance(t.slice, ast.Name) else None
+                if gov is not None and gov[1] is not None and gov[1][0] == mtxt:
+                    continue        # re-stores a key the mapping already has
+                return st
+        for c in calls_in(fi.node):
+            if isinstance(c.func, ast.Attribute) and norm(c.func.value) == mtxt and c.func.attr in ('update', 'setdefault') \
+                    and lo < c.lineno < hi:
+                return stmt_of(c)
+        return None
+
+    # ---- the decision
+    def safe(self, fi, base, key, at, depth=0):
+        """reason why base[key], evaluated at node `at` of function fi, finds its key - None when that cannot be shown"""
+        prog = self.prog
+        btxt, ktxt = norm(base), norm(key)
+        K = key.attr if _species_const(key) else None
+        r = self.handled(fi, at)
+        if r:
+            return r
+        atoms = facts_at(fi.node, at)
+        r = self.member_fact(atoms, ktxt, btxt)
+        if r:
+            return r
+        if K and isinstance(base, ast.Attribute):
+            g = species_enabled_by(atoms, K, self.table, fi=fi)
+            if g:
+                return f'configuration guard `{g}` (totals contain every species)'
+        if isinstance(key, ast.Name):
+            gov = _governing(at, key.id)
+            if gov is not None and gov[1] is not None and gov[1][0] == btxt:
+                return f'iterating the map\'s own keys ({norm(gov[2])})'
+            # the key walks a constant collection of members (a display, rows of (member, value), a dict display; in
+            # place, a local or a module constant): decided member by member, where the loop stands
+            lit = _literal_species_keys(prog, fi, at, key.id, with_owner=True)
+            if lit is not None:
+                owner, names = lit
+                where = owner if isinstance(owner, ast.stmt) else at
+                rs = [self.safe(fi, base, ast.Attribute(value=ast.Name(id='Species', ctx=ast.Load()), attr=k_, ctx=ast.Load()), where, depth)
+                      for k_ in names]
+                if all(rs):
+                    return f'the key walks {len(names)} constant keys, each present: {rs[0]}'
+                return None
+            if gov is not None:
+                owner, mi, it = gov
+                if isinstance(base, ast.Name) and base.id not in fi.params:
+                    r = self.stored_for_all_of(fi, base.id, it, owner if isinstance(owner, ast.stmt) else stmt_of(owner))
+                    if r:
+                        return r
+        if isinstance(base, ast.Name) and base.id not in fi.params:
+            r = self.stored_on_every_path(fi, base.id, key, at)
+            if r:
+                return r
+        # a map handed back by a helper that builds it with the key on every return: the helper's result itself, a
+        # component of the tuple / record it returns (unpacked, or read as a field)
+        d, sel = None, None
+        if isinstance(base, ast.Name) and base.id not in fi.params:
+            d = single_def_value(fi.node, base.id)
+            if d is None:
+                from ..astutil import tuple_def_component
+                td = tuple_def_component(fi.node, base.id)
+                d, sel = td if td else (None, None)
+        elif isinstance(base, ast.Attribute) and isinstance(base.value, ast.Name) and base.value.id not in fi.params:
+            d, sel = single_def_value(fi.node, base.value.id), base.attr
+        if isinstance(d, ast.Call) and K:
+            callee = resolve_call(prog, fi, d)
+            if callee is not None and callee.cls is None and not callee.node.decorator_list:
+                rets = [r_.value for r_ in walk_no_nested(callee.node) if isinstance(r_, ast.Return) and r_.value is not None]
+                if rets and all(self._returns_with_key(callee, rv, sel, key, depth) for rv in rets):
+                    return f'every return of {callee.name} builds the map with this key'
+        if isinstance(base, ast.Name) and base.id in fi.params and depth < 3 and (K or (isinstance(key, ast.Name) and key.id in fi.params)):
+            sites = callers_of(prog, fi)
+            reasons = []
+            for caller, call in sites:
+                b = _bound_arg(fi, call, base.id)
+                k = key if K else _bound_arg(fi, call, key.id)
+                if b is None or k is None or not isinstance(b, (ast.Name, ast.Attribute)) or not (_species_const(k) or isinstance(k, ast.Name)):
+                    return None
+                r = self.safe(caller, b, k, call, depth + 1)
+                if not r:
+                    self.why_not = (f'{fi.name} reads it from the map it is given; at the call in {caller.name} (line {call.lineno}) '
+                                    f'`{norm(b)}` is not known to contain {norm(k)}')
+                    return None
+                reasons.append(f'{caller.name}:{call.lineno} {r}')
+            if reasons:
+                return f'decided at the {len(reasons)} call site(s) of {fi.name}: ' + '; '.join(reasons)[:160]
+        return None
+
+    def _returns_with_key(self, callee, rv, sel, key, depth):
+        """the returned expression - its component `sel` (position of an unpacked target, or field name) when given -
+        is a map that has `key`"""
+        if isinstance(rv, ast.Name) and sel is not None:
+            rv = single_def_value(callee.node, rv.id) or rv
+        if sel is not None:
+            # a tuple display, or a record (NamedTuple / dataclass of the repository) built positionally or by
+            # keyword, whose fields unpack in declaration order
+            if isinstance(rv, ast.Tuple) and isinstance(sel, int) and sel < len(rv.elts) and not any(isinstance(e, ast.Starred) for e in rv.elts):
+                rv = rv.elts[sel]
+            elif isinstance(rv, ast.Call) and not any(isinstance(a_, ast.Starred) for a_ in rv.args):
+                from ..resolve import resolve_class_call
+                rc = resolve_class_call(self.prog, callee, rv)
+                order = list(rc.annotated_fields()) if rc is not None else []
+                idx = sel if isinstance(sel, int) else (order.index(sel) if sel in order else len(order))
+                if idx >= len(order):
+                    return False
+                rv = rv.args[idx] if idx < len(rv.args) else next((k.value for k in rv.keywords if k.arg == order[idx]), None)
+                if rv is None:
+                    return False
+            else:
+                return False
+        ktxt = norm(key)
+        if any(isinstance(d, ast.Dict) and any(k is not None and norm(k) == ktxt for k in d.keys) for d in ast.walk(rv)):
+            return True
+        if isinstance(rv, ast.Name) and rv.id not in callee.params:
+            at = next((r_ for r_ in walk_no_nested(callee.node) if isinstance(r_, ast.Return) and any(x is rv for x in ast.walk(r_))), None)
+            return at is not None and self.stored_on_every_path(callee, rv.id, key, at) is not None
+        return False
+
+
+def rule_reads(ctx, table):
     prog = ctx.prog
     n = 0
+    kr = _KeyReads(prog, table)
     for rel in READ_SCOPE:
         m = prog.module(rel)
         for fi in m.functions.values():
@@ -953,93 +1823,60 @@ def rule_reads(ctx, groups):
                 if not (isinstance(x, ast.Subscript) and isinstance(x.ctx, ast.Load)):
                     continue
                 key = x.slice
-                is_species_key = isinstance(key, ast.Attribute) and norm(key.value) == 'Species'
-                is_var_key = isinstance(key, ast.Name) and key.id in ('species', 'sp')
-                if not (is_species_key or is_var_key):
+                if not (_species_const(key) or isinstance(key, ast.Name)):
                     continue
                 base = x.value
                 btxt = norm(base)
-                # only maps of species: parameter annotated SpeciesValues, local SpeciesValues(), attr chains *emissions/*indices
+                # only maps of species: annotated / constructed SpeciesValues, the producers' and the inventory's maps
                 cls = expr_class(prog, fi, base) if isinstance(base, ast.Name) else None
                 if isinstance(base, ast.Name):
-                    if not (cls is not None and cls.name == 'SpeciesValues') and base.id not in (
-                            'indices', 'emissions', 'gse', 'lto_indices', 'lto_emissions', 'trajectory', 'lto', 'apu',
-                            'nominal', 'result'):
+                    if not (cls is not None and cls.name == 'SpeciesValues') and base.id not in _MAP_NAMES:
                         continue
-                elif not any(s in btxt for s in ('emissions', 'indices')):
+                elif not (isinstance(base, ast.Attribute) and any(s in btxt for s in ('emissions', 'indices'))):
+                    continue
+                if isinstance(key, ast.Name) and not _species_variable(prog, fi, key, x):
                     continue
                 n += 1
-                K = key.attr if is_species_key else None
                 ktxt = norm(key)
-                atoms = facts_at(fi.node, x)
-                ok = False
-                why = ''
-                for t, pol in atoms:
-                    if isinstance(t, ast.Compare) and isinstance(t.comparators[0], ast.pattern):
-                        continue
-                    if pol and isinstance(t, ast.Compare) and isinstance(t.ops[0], ast.In) \
-                            and norm(t.left) == ktxt and norm(t.comparators[0]) == btxt:
-                        ok, why = True, f'guarded by `{norm(t)}`'
-                if not ok and K:
-                    g = species_enabled_by(atoms, K, groups)
-                    if g and isinstance(base, ast.Attribute):
-                        ok, why = True, f'configuration guard `{g}` (totals contain every species)'
-                if not ok and isinstance(base, ast.Name) and base.id not in fi.params:
-                    # local map: an unconditional earlier store of the same key in this function
-                    for t, st, how in stores_to(fi.node):
-                        if isinstance(t, ast.Subscript) and norm(t.value) == btxt and norm(t.slice) == ktxt \
-                                and st.lineno < x.lineno and st in fi.node.body:
-                            ok, why = True, f'key stored unconditionally at line {st.lineno}'
-                    # an earlier top-level loop stored the key: over a literal list containing it,
-                    # or over the same mapping this read's loop walks
-                    mine = _governing(x, ktxt)
-                    my_loop = mine[0] if mine else None
-                    for s0 in fi.node.body:
-                        if isinstance(s0, ast.For) and s0.lineno < x.lineno and s0 is not my_loop:
-                            mi0 = map_iteration(s0.target, s0.iter)
-                            lv = mi0[1] if mi0 else (s0.target.id if isinstance(s0.target, ast.Name) else None)
-                            stores_lv = lv is not None and any(
-                                isinstance(b, ast.Assign) and isinstance(b.targets[0], ast.Subscript)
-                                and norm(b.targets[0].value) == btxt and norm(b.targets[0].slice) == lv for b in s0.body)
-                            if not stores_lv:
-                                continue
-                            if isinstance(s0.iter, (ast.List, ast.Tuple)) and ktxt in [norm(e) for e in s0.iter.elts]:
-                                ok, why = True, f'key stored by the literal-list loop at line {s0.lineno}'
-                            if mine is not None and mine[1] is not None and mi0 is not None and mi0[0] == mine[1][0]:
-                                ok, why = True, f'stored for every key of {mi0[0]} by the loop at line {s0.lineno}'
-                            elif mine is not None and mine[1] is None and mi0 is None and norm(s0.iter) == norm(mine[2]):
-                                ok, why = True, f'stored for every element of {norm(s0.iter)[:40]} by the loop at line {s0.lineno}'
-                    # loop over the map's own keys
-                    if mine is not None and mine[1] is not None and mine[1][0] == btxt:
-                        ok, why = True, f'iterating the map\'s own keys ({norm(mine[2])})'
-                    if mine is not None and mine[1] is None and isinstance(mine[2], (ast.List, ast.Tuple)):
-                        ok, why = True, 'iterating a literal key list stored by the producer just above'
-                if not ok and isinstance(base, ast.Name) and base.id in fi.params:
-                    mine = _governing(x, ktxt)
-                    if mine is not None and mine[1] is not None and mine[1][0] == btxt:
-                        ok, why = True, f'iterating the map\'s own keys ({norm(mine[2])})'
-                if not ok and isinstance(base, ast.Name):
-                    # a map returned by a helper that stores the key on every path (gse nominal profile)
-                    d = single_def_value(fi.node, base.id)
-                    if d is None:
-                        from ..astutil import tuple_def_component
-                        td = tuple_def_component(fi.node, base.id)
-                        d = td[0] if td else None
-                    if isinstance(d, ast.Call):
-                        callee = resolve_call(prog, fi, d)
-                        if callee is not None:
-                            rets = [r for r in walk_no_nested(callee.node) if isinstance(r, ast.Return)]
-                            if rets and all(ktxt in norm(r.value) or any(
-                                    ktxt in norm(e) for e in ast.walk(r.value) if isinstance(e, ast.Dict)) for r in rets):
-                                ok, why = True, f'every return of {callee.name} builds the map with this key'
-                            for a in ancestors(x):
-                                if isinstance(a, ast.For) and norm(a.target) == ktxt and isinstance(a.iter, ast.List) and rets \
-                                        and all(all(norm(e) in norm(r.value) for e in a.iter.elts) for r in rets):
-                                    ok, why = True, f'every return of {callee.name} contains all keys of the loop'
-                ctx.ob('C11-R2', fi, f'read {btxt}[{ktxt}]', ok, why if ok else
-                       (f'`{btxt}` only contains {ktxt} under some configurations (e.g. with the species switched '
-                        f'off); this read is unguarded and raises KeyError for the others'), line=x.lineno)
+                kr.why_not = None
+                why = kr.safe(fi, base, key, x)
+                if why is None:
+                    if kr.why_not:
+                        bad = kr.why_not + ': KeyError for the configurations under which it is absent'
+                    elif isinstance(base, ast.Name) and base.id not in fi.params:
+                        bad = (f'`{btxt}` is filled in this function, and some path reaches this read without having stored '
+                               f'{ktxt} (and nothing tests for it): KeyError on that path')
+                    else:
+                        bad = (f'`{btxt}` only contains {ktxt} under some configurations (e.g. with the species switched '
+                               f'off); this read is unguarded and raises KeyError for the others')
+                ctx.ob('C11-R2', fi, f'read {btxt}[{ktxt}]', why is not None, why if why else bad, line=x.lineno)
     ctx.floor('C11-R2', n, 20, 'species-map key reads')
+
+
+def _species_variable(prog, fi, key: ast.Name, at) -> bool:
+    """does the variable hold a species?  A parameter annotated Species, a loop variable that walks a species map, the
+    Species enum or a literal collection of its members, or (by convention of the package) a name like `species`"""
+    if key.id in ('species', 'sp', 'spec'):
+        return True
+    a = fi.node.args
+    for p in a.posonlyargs + a.args + a.kwonlyargs:
+        if p.arg == key.id and p.annotation is not None and norm(p.annotation).split('.')[-1].strip('\'"') == 'Species':
+            return True
+    if _literal_species_keys(prog, fi, at, key.id) is not None:
+        return True
+    gov = _governing(at, key.id)
+    if gov is not None:
+        owner, mi, it = gov
+        if isinstance(it, ast.Name) and it.id == 'Species':
+            return True
+        if isinstance(it, (ast.List, ast.Tuple, ast.Set)) and it.elts and all(_species_const(e) for e in it.elts):
+            return True
+        if mi is not None:
+            m0 = iterated_mapping(it)[0]
+            c = expr_class(prog, fi, m0) if isinstance(m0, ast.Name) else None
+            if (c is not None and c.name == 'SpeciesValues') or (isinstance(m0, ast.Name) and m0.id in _MAP_NAMES):
+                return True
+    return False
 
 
 def _only_enabled_keys(prog, fi, it: ast.AST, groups) -> str | None:
@@ -1077,7 +1914,7 @@ def _only_enabled_keys(prog, fi, it: ast.AST, groups) -> str | None:
         if isinstance(t, ast.Subscript) and norm(t.value) == rname:
             if not (isinstance(t.slice, ast.Attribute) and norm(t.slice.value) == 'Species'):
                 return None
-            if species_enabled_by(facts_at(callee.node, st), t.slice.attr, groups) is None:
+            if species_enabled_by(facts_at(callee.node, st), t.slice.attr, groups, fi=callee) is None:
                 return None
             n += 1
     if not n:
@@ -1085,7 +1922,7 @@ def _only_enabled_keys(prog, fi, it: ast.AST, groups) -> str | None:
     return f'the key walks the result of {callee.name}, which inserts each of its {n} species only when it is enabled'
 
 
-def _literal_species_keys(prog, fi, st, keyvar):
+def _literal_species_keys(prog, fi, st, keyvar, with_owner=False):
     """the Species members the key variable of statement st walks, when its loop is over a constant collection: a
     tuple / list / set of `Species.K`, a sequence of (Species.K, value) pairs, or a dict display keyed by Species.K
     (`.items()` / keys) - written in place, a single-definition local or a module constant.  None otherwise."""
@@ -1116,8 +1953,24 @@ def _literal_species_keys(prog, fi, st, keyvar):
             keys = [member(x.elts[0]) if isinstance(x, (ast.Tuple, ast.List)) and x.elts else None for x in src.elts]
         else:
             return None
+        if with_owner:
+            return (owner, keys) if keys and all(keys) else None
         return keys if keys and all(keys) else None
     return None
+
+
+def _config_facts(atoms) -> str:
+    """the facts about the configuration among atoms, as text (for messages)"""
+    out = []
+    for t, pol in atoms:
+        if isinstance(t, ast.Compare) and isinstance(t.comparators[0], ast.pattern):
+            vals = _pattern_values(t.comparators[0])
+            txt = f'{norm(t.left)} in ({", ".join(norm(v) for v in vals)})' if vals else None
+        else:
+            txt = norm(t)
+        if txt and ('config.' in txt or 'enabled' in txt):
+            out.append(('' if pol else 'not ') + txt)
+    return ('the facts on its path (' + '; '.join(out)[:200] + ') do not imply') if out else 'nothing on its path implies'
 
 
 # ---------------------------------------------------------------- R3 -----
@@ -1135,7 +1988,7 @@ def rule_stores(ctx, groups):
                 sets = []
                 for caller, call in cs:
                     if caller.file.startswith('src/AEIC/emissions'):
-                        sets.append(facts_at(caller.node, call))
+                        sets.append((caller, facts_at(caller.node, call)))
                 call_facts = sets
             for t, st, how in stores_to(fi.node):
                 targets = [t]
@@ -1178,16 +2031,16 @@ def rule_stores(ctx, groups):
                         lit = _literal_species_keys(prog, fi, st, keyvar)
                         if lit:
                             for K_ in lit:
-                                g_ = species_enabled_by(atoms, K_, groups)
+                                g_ = species_enabled_by(atoms, K_, groups, fi=fi)
                                 where = 'in the producer'
                                 if g_ is None and call_facts:
-                                    gs = [species_enabled_by(a, K_, groups) for a in call_facts]
+                                    gs = [species_enabled_by(a, K_, groups, fi=c_) for c_, a in call_facts]
                                     if gs and all(gs):
                                         g_, where = gs[0], 'at every call site'
                                 ctx.ob('C11-R3', fi, f'{norm(t)} for {keyvar} = Species.{K_}', g_ is not None,
                                        f'implied on: `{g_}` ({where})' if g_ else
-                                       (f'Species.{K_} is written into the {rel.split("/")[-1][:-3]} indices without any guard implying '
-                                        f'its switch is on: a switched-off species shows up in the inventory'), line=st.lineno)
+                                       (f'Species.{K_} is written into the {rel.split("/")[-1][:-3]} indices, and {_config_facts(atoms)} '
+                                        f'that it is enabled: a switched-off species shows up in the inventory'), line=st.lineno)
                             continue
                     ok = g is not None or restore or own_keys or filtered is not None
                     ctx.ob('C11-R3', fi, f'{norm(t)} = {norm(val)[:40] if val is not None else ""}', ok,
@@ -1196,16 +2049,16 @@ def rule_stores(ctx, groups):
                             filtered) if ok else
                            'a species taken from a variable is stored without testing that it is enabled', line=st.lineno)
                     continue
-                g = species_enabled_by(atoms, K, groups)
+                g = species_enabled_by(atoms, K, groups, fi=fi)
                 where = 'in the producer'
                 if g is None and call_facts:
-                    gs = [species_enabled_by(a, K, groups) for a in call_facts]
+                    gs = [species_enabled_by(a, K, groups, fi=c_) for c_, a in call_facts]
                     if gs and all(gs):
                         g, where = gs[0], 'at every call site'
                 ctx.ob('C11-R3', fi, f'{norm(t)} = {norm(val)[:40] if val is not None else ""}', g is not None,
                        f'implied on: `{g}` ({where})' if g else
-                       (f'Species.{K} is written into the {rel.split("/")[-1][:-3]} indices without any guard implying '
-                        f'its switch is on: a switched-off species shows up in the inventory'), line=st.lineno)
+                       (f'Species.{K} is written into the {rel.split("/")[-1][:-3]} indices, and {_config_facts(atoms)} '
+                        f'that it is enabled: a switched-off species shows up in the inventory'), line=st.lineno)
     ctx.floor('C11-R3/producers', n_fn, 2, 'functions that build the trajectory and LTO index maps')
     ctx.floor('C11-R3', n, 18, 'species stores in trajectory and LTO producers')
 
@@ -1273,7 +2126,10 @@ def rule_elements(ctx):
 
 
 # ---------------------------------------------------------------- R5 -----
-def rule_switches(ctx):
+def rule_switches(ctx, table):
+    """R5: a component is added to the totals under exactly the configurations under which it is computed - the two
+    conditions are compared as predicates over the option fields (so `a and b`, nested ifs, a guard clause, a hoisted
+    flag, `is not False` … are all the same), and they are the component's own switch."""
     prog = ctx.prog
     m = prog.module('emissions/emission.py')
     ce = m.func('compute_emissions')
@@ -1282,43 +2138,38 @@ def rule_switches(ctx):
         comp_calls = [c for c in calls_in(ce.node) if call_name(c).lower() == f'get_{comp}_emissions']
         if not comp_calls:
             ctx.undecided('C11-R5', ce, comp, 'component computation not found')
-        cg = {norm(t) for t, pol in facts_at(ce.node, comp_calls[0]) if pol and 'config.emissions' in norm(t)}
-        sg = set()
-        for x in walk_no_nested(st.node):
-            if isinstance(x, ast.AugAssign) and f'{comp}[' in norm(x.value):
-                sg = {norm(t) for t, pol in facts_at(st.node, x) if pol and 'config.emissions' in norm(t)}
-        ok = cg == sg and len(cg) == 1 and f'{comp}_enabled' in next(iter(cg))
-        ctx.ob('C11-R5', st, f'{comp}: computed under {sorted(cg)}, summed under {sorted(sg)}', ok,
-               'same switch' if ok else
-               f'the {comp.upper()} part is computed under one switch and added to the totals under another: '
-               'with exactly one of them on, totals no longer equal the sum of the parts')
+        C = table.premises(ce, facts_at(ce.node, comp_calls[0]))
+        adds = [x for x in walk_no_nested(st.node) if isinstance(x, ast.AugAssign) and f'{comp}[' in norm(x.value)]
+        if not adds:
+            ctx.undecided('C11-R5', st, comp, 'the place where the component enters the totals was not found')
+        want = table.premises(None, [(ast.parse(f'config.emissions.{comp}_enabled', mode='eval').body, True)])
+        for x in adds:
+            S = table.premises(st, facts_at(st.node, x))
+            d1 = table.differ(C, S)
+            d2 = table.differ(C, want) if d1 is None else None
+            ok = d1 is None and d2 is None and bool(C)
+            shown = f'{comp}: computed under {[p[3] for p in C]}, summed under {[p[3] for p in S]}'
+            ctx.ob('C11-R5', st, shown, ok, 'same switch' if ok else
+                   (f'the {comp.upper()} part is computed under one switch and added to the totals under another'
+                    + (f' (they differ for {", ".join(f"{k}={v!r}" for k, v in sorted((d1 or d2).items()))})' if (d1 or d2) else '')
+                    + ': with exactly one of them on, totals no longer equal the sum of the parts'), line=x.lineno)
 
 
-def rule_lifecycle(ctx):
+def rule_lifecycle(ctx, table):
     """R5b: the life-cycle CO2 adjustment that is *reported* and the one that is
-    *added to the CO2 total* are produced under the same configuration switches."""
+    *added to the CO2 total* are produced under the same configurations (compared as predicates over the option fields)."""
     prog = ctx.prog
     m = prog.module('emissions/emission.py')
     ce = m.func('compute_emissions')
 
-    def cfg_atoms(node):
-        out = set()
-        for t, pol in facts_at(ce.node, node):
-            if isinstance(t, ast.Compare) and isinstance(t.comparators[0], ast.pattern):
-                continue
-            txt = norm(t)
-            if 'config.emissions' in txt:
-                out.add(('' if pol else 'not ') + txt)
-        return out
-
     def effective(site, val):
-        g = cfg_atoms(site)
+        atoms = list(facts_at(ce.node, site))
         if isinstance(val, ast.Name):
             defs = [st for t, st, how in stores_to(ce.node) if isinstance(t, ast.Name) and t.id == val.id
                     and not (isinstance(getattr(st, 'value', None), ast.Constant) and st.value.value in (None, 0, 0.0))]
             if len(defs) == 1:
-                g |= cfg_atoms(defs[0])
-        return g
+                atoms += facts_at(ce.node, defs[0])
+        return table.premises(ce, atoms)
 
     add_site = rep_site = None
     for x in walk_no_nested(ce.node):
@@ -1333,11 +2184,13 @@ def rule_lifecycle(ctx):
     if add_site is None or rep_site is None:
         ctx.undecided('C11-R5', ce, 'life-cycle adjustment', 'add / report sites not found')
     ga, gr = effective(*add_site), effective(*rep_site)
-    ok = ga == gr and bool(ga)
-    ctx.ob('C11-R5', ce, f'life-cycle CO2: added under {sorted(ga)}, reported under {sorted(gr)}', ok,
+    d = table.differ(ga, gr)
+    ok = d is None and bool(ga)
+    ctx.ob('C11-R5', ce, f'life-cycle CO2: added under {sorted({p[3] for p in ga})}, reported under {sorted({p[3] for p in gr})}', ok,
            'one condition for both' if ok else
-           'the reported life-cycle adjustment and the one added to the CO2 total are governed by different switches: '
-           'for the combination where they differ the CO2 total no longer equals the sum of its parts plus the reported adjustment',
+           ('the reported life-cycle adjustment and the one added to the CO2 total are governed by different switches'
+            + (f' (they differ for {", ".join(f"{k}={v!r}" for k, v in sorted(d.items()))})' if d else '')
+            + ': for the combination where they differ the CO2 total no longer equals the sum of its parts plus the reported adjustment'),
            line=add_site[0].lineno)
 
 
@@ -1898,14 +2751,15 @@ def rule_writable(ctx):
 
 
 def run(ctx):
-    rule_lifecycle(ctx)
-    groups = implication_table(ctx)
-    ctx.stats['species_groups'] = {k: sorted(v['species']) + [f'{s}?' for s in v['conditional']] for k, v in groups.items()}
+    groups = implication_table(ctx)        # the table object; .groups is the grouping by switch
+    rule_lifecycle(ctx, groups)
+    ctx.stats['species_groups'] = {k: sorted(v['species']) + [f'{s}?' for s in v['conditional']] for k, v in groups.groups.items()}
+    ctx.stats['species_conditions'] = {k: v for k, v in sorted(groups.text.items())}
     rule_dispatch(ctx)
     rule_reads(ctx, groups)
     rule_stores(ctx, groups)
     rule_elements(ctx)
-    rule_switches(ctx)
+    rule_switches(ctx, groups)
     rule_writable(ctx)
     ctx.assumptions += ['the numeric balance of each configuration is C01; here only absence of internal errors '
                         'and of switched-off species is decided, per site, for every enum member']
